@@ -303,7 +303,6 @@ package httpserver
 
 //@ func (*vhostTrie).matchPath
 //@   requires t != nil
-//@   requires forall(k, 0, len(remainingPath), remainingPath[k] < 128)
 //@   ensures [longest] exists(k, 0, len(old(remainingPath)) + 1, result == best(old(t), old(remainingPath), k) && walk(old(t), old(remainingPath), k) != nil && (k == len(old(remainingPath)) || walk(old(t), old(remainingPath), k+1) == nil))
 //@   loop 1 invariant 0 <= K() && K() <= len(old(remainingPath)) && remainingPath == old(remainingPath)[K():]
 //@   loop 1 invariant t != nil && t == walk(old(t), old(remainingPath), K())
